@@ -4,6 +4,7 @@
 -/
 import LW.Driver.Canon
 import LW.Model.App
+import LW.Model.Checked
 namespace LW.Driver.AppOps
 open LW LW.App LW.Canon
 
@@ -183,7 +184,19 @@ def runAOp (E : BlockCipher) : AOp → String
   | .enc _ c => match c.enc with
       | .ok b => s!"ok {c.size} {hx b}"
       | .err => s!"ok {c.size} ERR" | .panic => "PANIC"
-  | .dec p u b => match cmdDec p u b with
+  | .dec p u b =>
+      -- offset-arithmetic transcriptions of LW.Model.Checked against the total payload decoders
+      let consistent : Bool := match b with
+        | [] => true
+        | cid :: r => match registry p u cid.toNat with
+          | some .mcGroupStatusAns => Checked.statusAnsDec r == AKind.dec .mcGroupStatusAns r
+          | some .mcClassCSessionAns => Checked.sessionAnsDec .mcClassCSessionAns r == AKind.dec .mcClassCSessionAns r
+          | some .mcClassBSessionAns => Checked.sessionAnsDec .mcClassBSessionAns r == AKind.dec .mcClassBSessionAns r
+          | some .devUpgradeImageAns => Checked.upgradeAnsDec r == AKind.dec .devUpgradeImageAns r
+          | some .dataFragment => Checked.dataFragmentDec r == AKind.dec .dataFragment r
+          | _ => true
+      if !consistent then "MODEL-INCONSISTENT checked-app" else
+      match cmdDec p u b with
       | .ok c => s!"ok {fmtCmd c} {c.size}"
       | .err => "ERR" | .panic => "PANIC"
   | .decs p u b => match cmdsDec p u b with
